@@ -21,8 +21,9 @@ only after the previous one was consumed by the thread it addresses):
   ["exit", code]                       the process ends; consumed when the wait loop sees it
   ["timer"]                            the timeout timer expires (its function runs, then the
                                        timer thread is no longer alive)
-  ["exc", who] / ["werr", who]         the next gate call of worker who in out|err|in raises
-                                       OhNoz / WatcherError; consumed when that thread is dead
+  ["exc", who] / ["werr", who] / ["exc_base", who]
+                                       the next gate call of worker who in out|err|in raises
+                                       OhNoz / WatcherError / SystemExit; consumed when that thread is dead
   ["kbd"]                              KeyboardInterrupt out of the next process_is_finished poll
 
 After the last event the script is "drained": readers get EOF, unless the stream
@@ -447,13 +448,15 @@ class Env:
                         self.cv.notify_all()
                         ok = self._wait(self._past_wait)
                     self.consumed.append(idx)
-                elif kind in ("exc", "werr"):
+                elif kind in ("exc", "werr", "exc_base"):
                     who = ev[1]
                     if self._worker_gone(who):
                         self.skipped.append(idx)
                         continue
                     if kind == "exc":
                         self.exc_pending[who] = OhNoz("injected")
+                    elif kind == "exc_base":
+                        self.exc_pending[who] = SystemExit(3)      # a BaseException that is no Exception
                     else:
                         from invoke.exceptions import WatcherError
                         self.exc_pending[who] = WatcherError("injected")
